@@ -35,6 +35,8 @@ Clauses(e) ==
       ActionReachesComponent |-> (e.ev = "Req" /\ e.action /\ e.exist) => Outcome(e) \in {"handled", "failure"},
       \* ... and the ANSWER says so too (the walk above is the harness' own; the status is the simulator's)
       ActionNeverUnreachable |-> (e.ev = "Req" /\ e.exec /\ e.action /\ e.exist) => e.status # "unreachable",
+      \* a component that does not exist (by the simulator's own component tables, whatever routes are registered)
+      AbsentNeverSucceeds |-> (e.ev = "Req" /\ e.exec /\ e.gone) => (e.status \in {"unreachable", "failure"} /\ e.post = e.pre),
       MaskExact          |-> (e.ev = "Req" /\ e.mask # "na") => (e.mask = "allow" <=> MaskAllows(e.path) /\ e.leaf),
       MaskedNeverSucceeds |-> (e.ev = "Req" /\ e.exec /\ e.mask = "deny") => e.status # "success"
     ]
